@@ -34,6 +34,10 @@ pub struct SystemHybridClock;
 
 impl HybridClock for SystemHybridClock {
     fn now(&self) -> Instant {
+        #[cfg(kolibrie_verif)]
+        if let Some(simulated) = kolibrie_verif_rt::hybrid_clock::now() {
+            return simulated;
+        }
         Instant::now()
     }
 }
